@@ -637,3 +637,85 @@ theorem loadChild_reported (w : World) :
                 · rw [hout] at hx; exact hall x hx
 
 end CssVerif.EncLadder
+
+namespace CssVerif.EncLadder
+open CssVerif.Codec
+
+/-! ## `_readUrl` asks the detector without `final`: where that differs from the complete-data answer -/
+
+/-- the explicit answer in a result of the decision ladder, before any `@charset` scan -/
+def exCore : Core → Option Enc
+  | .ans e true => some e
+  | _ => none
+
+/-- what a detector answer declares explicitly -/
+def exAns : Option (Enc × Bool) → Option Enc
+  | some (e, true) => some e
+  | _ => none
+
+theorem exAns_detect_short (l : List Nat) (f : Bool) (hs : core l f ≠ .scan) :
+    exAns (detect l f) = exCore (core l f) := by
+  unfold detect
+  cases hc : core l f with
+  | dflt => cases f <;> simp [exAns, exCore]
+  | ans e x => cases x <;> simp [exAns, exCore]
+  | scan => exact absurd hc hs
+
+theorem short_table0 : ∀ f, core [] f ≠ .scan ∧ exCore (core [] true) = exCore (core [] false) := by decide
+theorem short_table1 : ∀ i : Fin 11, ∀ f, core [val i] f ≠ .scan ∧
+    exCore (core [val i] true) = exCore (core [val i] false) := by decide +kernel
+theorem short_table2 : ∀ i j : Fin 11, ∀ f, core [val i, val j] f ≠ .scan ∧
+    (exCore (core [val i, val j] true) = exCore (core [val i, val j] false) ∨ (val i = 0xFF ∧ val j = 0xFE)) := by
+  decide +kernel
+theorem short_table3 : ∀ i j k : Fin 11, ∀ f, core [val i, val j, val k] f ≠ .scan ∧
+    (exCore (core [val i, val j, val k] true) = exCore (core [val i, val j, val k] false) ∨
+      (val i = 0xFF ∧ val j = 0xFE)) := by
+  decide +kernel
+
+theorem norm_eq_const (a K : Nat) (hK : consts.contains K = true) (h : norm a = K) : a = K := by
+  have := norm_beq a K hK
+  rw [h] at this
+  simp at this
+  exact this.symm ▸ rfl
+
+/-- for data shorter than four bytes the explicit answers with and without `final` agree unless the data starts
+with `FF FE` -/
+theorem explicit_short (l : List Nat) (hl : l.length < 4) :
+    exAns (detect l true) = exAns (detect l false) ∨ l.take 2 = [0xFF, 0xFE] := by
+  have key : ∀ f, core l f ≠ .scan ∧ (exCore (core l true) = exCore (core l false) ∨ l.take 2 = [0xFF, 0xFE]) := by
+    intro f
+    match l, hl with
+    | [], _ => exact ⟨(short_table0 f).1, Or.inl (short_table0 f).2⟩
+    | [a], _ =>
+      obtain ⟨i, hi⟩ := norm_mem a
+      have := short_table1 i f
+      rw [← hi] at this
+      have e : ∀ g, core [norm a] g = core [a] g := fun g => core_norm [a] g
+      simp only [e] at this
+      exact ⟨this.1, Or.inl this.2⟩
+    | [a, b], _ =>
+      obtain ⟨i, hi⟩ := norm_mem a; obtain ⟨j, hj⟩ := norm_mem b
+      have := short_table2 i j f
+      rw [← hi, ← hj] at this
+      have e : ∀ g, core [norm a, norm b] g = core [a, b] g := fun g => core_norm [a, b] g
+      simp only [e] at this
+      refine ⟨this.1, ?_⟩
+      rcases this.2 with h | ⟨h1, h2⟩
+      · exact Or.inl h
+      · right
+        rw [norm_eq_const a 0xFF (by decide) h1, norm_eq_const b 0xFE (by decide) h2]; rfl
+    | [a, b, c], _ =>
+      obtain ⟨i, hi⟩ := norm_mem a; obtain ⟨j, hj⟩ := norm_mem b; obtain ⟨k, hk⟩ := norm_mem c
+      have := short_table3 i j k f
+      rw [← hi, ← hj, ← hk] at this
+      have e : ∀ g, core [norm a, norm b, norm c] g = core [a, b, c] g := fun g => core_norm [a, b, c] g
+      simp only [e] at this
+      refine ⟨this.1, ?_⟩
+      rcases this.2 with h | ⟨h1, h2⟩
+      · exact Or.inl h
+      · right
+        rw [norm_eq_const a 0xFF (by decide) h1, norm_eq_const b 0xFE (by decide) h2]; rfl
+  rw [exAns_detect_short l true (key true).1, exAns_detect_short l false (key false).1]
+  exact (key true).2
+
+end CssVerif.EncLadder
